@@ -85,7 +85,9 @@ public:
 
     base_array(const const_slice_t<T>& rhs)
       : base_array(rhs.size()) {
-        this->slice(0, indexing::end) = rhs;
+        if (rhs.size() > 0) {
+            this->slice(0, indexing::end) = rhs;
+        }
     }
 
     base_array(const slice_t<T>& rhs)
